@@ -168,10 +168,10 @@ def jobs_for(prop, tier):
 F_FAMILIES = {
     "C01": ["lines", "congestion", "diamonds", "conveyors", "combiners"],
     "C06": ["diamonds", "fans", "splitters", "conveyors"],
-    "C03": ["lines", "congestion", "diamonds", "combiners", "splitters", "conveyors"],
+    "C03": ["lines", "congestion", "diamonds", "combiners", "splitters", "conveyors", "draining"],
     "C08": ["lines", "congestion", "diamonds", "combiners", "splitters", "conveyors"],
     "C09": ["lines", "congestion", "fans", "combiners", "splitters"],
-    "C10": ["lines", "congestion", "diamonds", "fans", "combiners", "splitters", "conveyors"],
+    "C10": ["lines", "congestion", "diamonds", "fans", "combiners", "splitters", "conveyors", "draining"],
     "C15": ["diamonds", "fans", "combiners", "splitters"],
     "C16": ["combiners", "splitters"],
     "C17": ["lines", "congestion", "diamonds", "splitters", "combiners", "conveyors"],
